@@ -425,6 +425,20 @@ func (x *Exec) registerLib() {
 	x.lib["github.com/cosmos72/gomacro/base/reflect.Category"] = &libFn{apply: func(f *Frame, st *State, ins ssa.Instruction, args []Value) (Value, bool) {
 		k := args[0].(*smt.Term)
 		w := k.S.W
+		if k.IsConst() {
+			c := k.Val
+			switch {
+			case c >= kInt && c <= kInt64:
+				c = kInt
+			case c >= kUint && c <= kUintptr:
+				c = kUint
+			case c == kFloat32 || c == kFloat64:
+				c = kFloat64
+			case c == kComplex64 || c == kComplex128:
+				c = kComplex128
+			}
+			return B.BVC(c, w), true
+		}
 		in := func(lo, hi uint64) *smt.Term {
 			return B.And(B.BVCmp("bvule", B.BVC(lo, w), k), B.BVCmp("bvule", k, B.BVC(hi, w)))
 		}
